@@ -20,12 +20,9 @@ def module_callees(model: Model, fi: FuncInfo, module: Optional[str] = None) -> 
     module = module or fi.module
     out: List[FuncInfo] = []
     for n in ast.walk(fi.node):
-        names: List[str] = []
-        if isinstance(n, ast.Call) and isinstance(n.func, ast.Name):
-            names.append(n.func.id)
-        if isinstance(n, ast.Call):
-            # a module function handed to another callable (`self._read_and_advance(_read_asn1_boolean, ...)`) counts as called
-            names += [a.id for a in list(n.args) + [k.value for k in n.keywords] if isinstance(a, ast.Name)]
+        # any reference counts: a direct call, a function handed to another callable
+        # (`self._read_and_advance(_read_asn1_boolean, ...)`) or bound to a local alias before being called
+        names: List[str] = [n.id] if isinstance(n, ast.Name) and isinstance(n.ctx, ast.Load) else []
         for nm in names:
             q = model.resolve_name(fi.module, nm)
             if q in model.functions and model.functions[q].module == module and model.functions[q].cls is None and model.functions[q] not in out:
@@ -200,14 +197,17 @@ class SchemaAnchors:
                 q = model.resolve_name(SCHEMA, n.func.id)
                 if q in model.functions:
                     self.encoder = model.functions[q]
-        # decoder: module function applied in from_string to the value of the DESC group
+        # decoder: module function applied in from_string to the value of the DESC group (m.group("desc") / m["desc"],
+        # directly or through a local)
+        from .rx.sites import group_accesses
+        desc_nodes = {id(c) for c, _, g in group_accesses(f.node) if g == "desc"}
         desc_vars = set()
         for n in ast.walk(f.node):
-            if isinstance(n, ast.Assign) and isinstance(n.value, ast.Call) and isinstance(n.value.func, ast.Attribute) and n.value.func.attr == "group" and n.value.args and isinstance(n.value.args[0], ast.Constant) and n.value.args[0].value == "desc":
+            if isinstance(n, ast.Assign) and id(n.value) in desc_nodes:
                 desc_vars |= {t.id for t in n.targets if isinstance(t, ast.Name)}
         self.decoder = None
         for n in ast.walk(f.node):
-            if isinstance(n, ast.Call) and isinstance(n.func, ast.Name) and any(isinstance(a, ast.Name) and a.id in desc_vars for a in n.args):
+            if isinstance(n, ast.Call) and isinstance(n.func, ast.Name) and any((isinstance(a, ast.Name) and a.id in desc_vars) or id(a) in desc_nodes for a in n.args):
                 q = model.resolve_name(SCHEMA, n.func.id)
                 if q in model.functions:
                     self.decoder = model.functions[q]
